@@ -17,3 +17,14 @@ func verifDateWithUTCTimeRoundTrip(t time.Time) (time.Time, error) {
 	err = out.UnmarshalText(b)
 	return time.Time(out), err
 }
+
+// what the client encodes is what the server decodes (the XML layer in between is assumed
+// to transport the wire structs faithfully, T-xml)
+func verifParamFilterRoundTrip(pf ParamFilter) (*ParamFilter, error) {
+	el := encodeParamFilter(pf)
+	return decodeParamFilter(&el)
+}
+
+func verifPropFilterRoundTrip(pf *PropFilter) (*PropFilter, error) {
+	return decodePropFilter(encodePropFilter(pf))
+}
